@@ -64,7 +64,13 @@ def rel_symlink(base: Path, dir: Path) -> Optional[Path]:
     """
     path = dir.parent / os.readlink(str(dir))
     try:
-        return path.resolve().relative_to(base.resolve())
+        base = base.resolve()
+        # where the link (possibly through other links) finally leads must be inside
+        path.resolve().relative_to(base)
+        # the recorded target is the one of this link itself, only normalized
+        # (not the place a chain of further symlinks ends at)
+        norm = os.path.normpath(str(dir.parent.resolve() / os.readlink(str(dir))))
+        return Path(norm).relative_to(base)
     except ValueError:
         return None  # link points outside of base directory
 
